@@ -261,12 +261,6 @@ fn rng_for(seed: u64, id: &str) -> TestRng {
     TestRng::from_seed(RngAlgorithm::ChaCha, &bytes)
 }
 
-fn is_erg_loc(loc: &str) -> bool {
-    let l = loc.replace('\\', "/");
-    (l.contains("/repo/") || l.starts_with("crates/") || l.starts_with("src/"))
-        && !l.contains("/verif/")
-}
-
 /// Runs the oracle under catch_unwind and applies the panic policy.
 pub fn run_guarded<P: Property>(p: &P, case: &P::Case) -> Outcome {
     match panics::catch(|| p.run(case)) {
@@ -277,7 +271,7 @@ pub fn run_guarded<P: Property>(p: &P, case: &P::Case) -> Outcome {
             o
         }
         Err(info) => {
-            if is_erg_loc(&info.loc) {
+            if info.origin == "erg" {
                 let sig = format!(
                     "panic@{} {}",
                     panics::norm_loc(&info.loc),
